@@ -213,7 +213,7 @@ Proof. exact solver_misses_conditions. Qed.
 (* ---- from a solver output to the reported list (Gen/GenCexHandler.v: CounterexampleHandler
    from __main__.py).  The dispatch of _solve_end_to_end_callback is `classify` *)
 Theorem C04_callback_dispatch :
-  forall o, gen_callback_verdict o = classify o.
+  forall early_exit o, gen_callback_verdict early_exit o = classify o.
 Proof. exact callback_is_classify. Qed.
 Print Assumptions C04_callback_dispatch.
 
@@ -221,7 +221,7 @@ Print Assumptions C04_callback_dispatch.
    handlers) the solvers still running are killed: whatever the future then holds - a result
    parsed from a cut output included - nothing is reported *)
 Theorem C04_nothing_reported_after_shutdown :
-  forall f, gen_callback_verdict (gen_get_solver_output true f) = NoModel.
+  forall early_exit f, gen_callback_verdict early_exit (gen_get_solver_output true f) = NoModel.
 Proof. exact nothing_after_shutdown. Qed.
 Print Assumptions C04_nothing_reported_after_shutdown.
 
@@ -229,9 +229,9 @@ Print Assumptions C04_nothing_reported_after_shutdown.
    shutdown flag is set: a counterexample reported as valid was parsed from a COMPLETE output that
    mentions no abstraction *)
 Theorem C04_valid_cex_from_complete_output :
-  forall is_shutdown killed k1 k2 core_hit is_refined out1 changes out2,
+  forall early_exit is_shutdown killed k1 k2 core_hit is_refined out1 changes out2,
     (killed = true -> is_shutdown = true) ->
-    gen_callback_verdict
+    gen_callback_verdict early_exit
       (gen_get_solver_output is_shutdown
          (FRes (fst (solve_e2e core_hit is_refined (observed killed k1 out1) changes (observed killed k2 out2)))))
       = ValidCex ->
@@ -244,7 +244,7 @@ Print Assumptions C04_valid_cex_from_complete_output.
 (* the executor is shut down by the handler only for a valid counterexample under --early-exit *)
 Theorem C04_shutdown_only_after_valid :
   forall early_exit o,
-    gen_callback_shutdown early_exit o = true -> early_exit = true /\ gen_callback_verdict o = ValidCex.
+    gen_callback_shutdown early_exit o = true -> early_exit = true /\ gen_callback_verdict early_exit o = ValidCex.
 Proof. exact shutdown_only_after_valid. Qed.
 Print Assumptions C04_shutdown_only_after_valid.
 
@@ -260,8 +260,8 @@ Example C04_cut_output_looks_valid :
                "(define-fun f_evm_bvmul_256 ((x!0 (_ BitVec 256)) (x!1 (_ BitVec 256))) (_ BitVec 256) #x00)")%string in
   contains invalid_marker full = true /\
   from_result (prefix 60 full) = OSat true (prefix 60 full) /\
-  gen_callback_verdict (gen_get_solver_output false (FRes (from_result (prefix 60 full)))) = ValidCex /\
-  gen_callback_verdict (gen_get_solver_output true (FRes (from_result (prefix 60 full)))) = NoModel.
+  gen_callback_verdict true (gen_get_solver_output false (FRes (from_result (prefix 60 full)))) = ValidCex /\
+  gen_callback_verdict true (gen_get_solver_output true (FRes (from_result (prefix 60 full)))) = NoModel.
 Proof. vm_compute. repeat split; reflexivity. Qed.
 
 Example C04_nonvacuous :
